@@ -290,7 +290,17 @@ func ClosedLoopCase(prop string) func(env *core.Env, idx int) *core.CaseResult {
 		rng := env.RNG(idx)
 		s := GenFor(prop, rng)
 		res := &core.CaseResult{}
-		r, m, vs, err := RunScenario(s, nil, true)
+		var fp *sim.FaultPlan
+		if prop == "C18" && idx%2 == 1 {
+			// finalizer removals under a single write fault: an early exit (the release is left while the BatchRelease is
+			// being created / prepared, where the controllers' status lags behind what they already did to the workload)
+			// crossed with one failing controller write among the first 40
+			j := idx / 2
+			fp = &sim.FaultPlan{FailCommit: 1 + j%40, FailKind: []string{"error", "conflict", "lost"}[(j/40)%3]}
+			s.Events = []sim.Injected{{AtStep: 1, AtState: []string{"StepUpgrade", "BeforeStepUpgrade", "StepUpgrade", "StepTrafficRouting"}[rng.Intn(4)], Action: []string{"delete", "disable", "rollback", "delete"}[rng.Intn(4)], Immediate: rng.Intn(3) > 0}}
+			res.Count("c18_runs_with_a_write_fault", 1)
+		}
+		r, m, vs, err := RunScenario(s, fp, true)
 		if err != nil {
 			res.Inconclusive = "engine: " + err.Error()
 			return res
@@ -335,7 +345,7 @@ func init() {
 		{"C10", "exploration", "c10_capacity_removals_checked", common + "a rollback or a v3 release is injected at a random (step, sub-state); from the Cancelling / supersession point every write that removes new-revision capacity (BatchRelease deleted / released, canary Deployment scaled or removed, workload handed back) requires route(store) to send nothing to the canary Service. distinct = scenario signature.", 200, 4000},
 		{"C11", "exploration", "c11_br_status_writes", common + "at every BatchRelease status write: Ready implies enough updated+ready pods (own count of live pods), currentBatch <= batchPartition, Completed implies released workload, unguarded canary Deployments and (wait policy) all pods updated and ready. distinct = scenario signature.", 160, 4000},
 		{"C09", "exploration", "runs", common + "accepted Rollouts are reconciled through every phase while documented user-patchable status fields are fuzzed (nextStepIndex in {-5..steps+5, MaxInt32}); every Reconcile, watch handler and webhook Handle runs under recover(): a panic is a violation (controller-runtime 0.14 does not recover reconciler panics). distinct = scenario signature.", 160, 4000},
-		{"C18", "fault_enumeration", "c18_finalizer_removals_checked", common + "deletion / exit events at random (step, sub-state); at every write removing a rollout / batch-release / trafficrouting finalizer the cleanup must be complete in that snapshot. distinct = scenario signature.", 200, 4000},
+		{"C18", "fault_enumeration", "c18_finalizer_removals_checked", common + "deletion / exit events at random (step, sub-state); at every write removing a rollout / batch-release / trafficrouting finalizer the cleanup must be complete in that snapshot. Every second case crosses an early exit (step 1) with one failing controller write (the k-th store-changing write, k = 1..40, kinds error / conflict / lost response): the finalizer clauses must hold under the fault as well. distinct = scenario signature.", 320, 6000},
 	}
 	for _, sp := range specs {
 		sp := sp
